@@ -784,7 +784,7 @@ Qed.
 
 (* ------------------------------------------------------------------ where the full statements fail (faithful model = findings) *)
 Definition w_cfg (pm : bool) (margin : Q) : span_cfg :=
-  mkSpan pm [-2; 3; 1 # 2] 20 (3 # 10) margin (1 # 2) (5 # 2) (1 # 4) 10 0 0 0.
+  mkSpan pm [-2; 3; 1 # 2] 20 (3 # 10) margin (1 # 2) (5 # 2) (1 # 4000) 10 0 0 0.
 Definition w_lib : list amp := [mkAmp "A" false false true 191275 196125 15 25 (163 # 10) true].
 Definition w_amp (g dp ov iv : option Q) : ampn := mkAN (mkNode "A" []) g dp ov iv [].
 
